@@ -206,6 +206,22 @@ func c04Ops() []c04Op {
 	add("DecodeCR3(rich)", func() { mc.Guard(func() { imagemeta.DecodeCR3(bytes.NewReader(byName["cr3-rich-II"])) }) })
 	add("DecodeHeif(rich)", func() { mc.Guard(func() { imagemeta.DecodeHeif(bytes.NewReader(byName["heif-rich-MM"])) }) })
 	add("PreviewCR3", func() { mc.Guard(func() { imagemeta.PreviewCR3(bytes.NewReader(byName["cr3-rich-II"])) }) })
+	runEP := func(name string, data []byte) func() {
+		for i := range entryPoints {
+			if entryPoints[i].name == name {
+				e := &entryPoints[i]
+				return func() { mc.Guard(func() { e.run(envio.New(data)) }) }
+			}
+		}
+		panic(mc.HarnessError{Msg: "c04: no entry point " + name})
+	}
+	add("jpeg.ScanJPEG(plain reader, library callbacks)", runEP("jpeg.ScanJPEG", byName["jpeg-rich-II"]))
+	add("isobmff.Reader driven directly (CR3)", runEP("isobmff.Reader", byName["cr3-rich-II"]))
+	add("isobmff.Reader driven directly (item-based HEIC)", runEP("isobmff.Reader", byName["heic-items-min-II"]))
+	add("tiff.ScanTiffHeader + imagetype.Scan", func() {
+		runEP("tiff.ScanTiffHeader", byName["heif-rich-MM"])()
+		runEP("imagetype.Scan", byName["jpeg-min-MM"])()
+	})
 	add("ParseXmp(sidecar)", func() { mc.Guard(func() { xmp.ParseXmp(bytes.NewReader(byName["xmp-sidecar"])) }) })
 	cs := contents(64, 8)
 	imgA := buildImage(kGray, 0, 64, cs[20])
@@ -601,7 +617,7 @@ func init() {
 			c04Depth = depth
 			return []mc.Space{
 				{Name: "histories-x-decoding-victims", H: c04Harness(tier, depth), NoLevels: true, Isolate: true, SplitDepth: 1,
-					Rule: fmt.Sprintf("breadth-first search to depth %d over 26 residue operations (decodes of rich/erroring/offset-time inputs through every container entry point, preview, XMP, hashes of valid and invalid images, 4 pool-poisoning patterns) x 3 pool-answer policies, states deduplicated by the canonical content of all pooled objects and of the time-zone cache; in every state every victim (every seed x entry point, cuts of the generated seeds, single-field malformations) must return exactly what it returns on pristine state", depth)},
+					Rule: fmt.Sprintf("breadth-first search to depth %d over 30 residue operations (decodes of rich/erroring/offset-time inputs through every container entry point, preview, XMP, hashes of valid and invalid images, 4 pool-poisoning patterns) x 3 pool-answer policies, states deduplicated by the canonical content of all pooled objects and of the time-zone cache; in every state every victim (every seed x entry point, cuts of the generated seeds, single-field malformations) must return exactly what it returns on pristine state", depth)},
 				{Name: "histories-x-hashing-victims", H: c04Hashing(depth), NoLevels: true, Isolate: true, SplitDepth: 1,
 					Rule: "the same states x 50 valid images (5 formats, both hash sizes) and 10 wrong-sized images through the four hash functions"},
 				{Name: "returned-results-survive-later-activity", H: c04Aliasing, NoLevels: true, Isolate: true, SplitDepth: 1,
